@@ -784,6 +784,11 @@ impl Rig {
                 None => break,
             }
         }
+        if relay_reply && f.port == Port::Mempool && !replies.is_empty() {
+            // an acknowledgement travels back to the sender of a mempool frame (recorded for the C12 monitor)
+            let d = sha(&[&f.data]);
+            self.events.push(json!({"t":"mp","k":"BatchAck","node":f.from,"by":f.to,"digest":simnet::hex(&d.0)}));
+        }
         if relay_reply {
             for r in &replies {
                 if let Some(w) = self.conns[ci].out.as_mut() {
